@@ -459,3 +459,26 @@ def run(model, col, tier):
         if ob.rule == "R18.2" and any(k in ob.construct for k in ("GenerateWasm", "WebAssembly", "wasm")):
             ob.rule = "R07.8"
             col.obligations.append(ob)
+    # ---------------- R07.9 the module is finalised once ----------------------------------------------
+    # Finalize completes the module by *adding* to it (table, element segment, ..): a second call adds them again
+    from ..pipeline import Pipeline as _P79
+
+    fin = None
+    for ci_ in model.classes.values():
+        if ci_.file == GEN and "Finalize" in ci_.methods:
+            fin = ci_.methods["Finalize"]
+    if fin is None:
+        raise AnchorMissing(f"{GEN}::Finalize")
+    selfn_ = fin.args.args[0].arg
+    adds = [unparse(c.func) for c in ast.walk(fin) if isinstance(c, ast.Call) and isinstance(c.func, ast.Attribute) and c.func.attr.startswith(("Add", "append", "extend", "Set", "insert"))
+            and unparse(c.func.value).startswith(selfn_ + ".")]
+    adds += [unparse(n.targets[0]) for n in ast.walk(fin) if isinstance(n, ast.Assign) and isinstance(n.targets[0], ast.Attribute) and unparse(n.targets[0].value) == selfn_]
+    comp79 = _P79(model).compile
+    most = 0
+    for evs, status in paths(comp79.body, loop_iters=(0, 1)):
+        if status == "raise":
+            continue
+        most = max(most, sum(1 for c in calls_on_path(evs) if last_attr(c) == "Finalize"))
+    col.check(most <= 1 or not adds, "R07.9", "nsl/Compiler.py::Compile finalises the wasm module once", f"Finalize (which adds to the module: {adds[:3]}) is called at most once per compilation",
+              f"a path of Compile calls Finalize {most} times; each call adds to the module again ({adds[:3]}): the emitted binary has a second table / duplicate entries and does not validate", "nsl/Compiler.py", comp79)
+    col.check(most >= 1, "R07.9", "nsl/Compiler.py::Compile finalises the wasm module", "the returned module went through Finalize", "Compile never finalises the wasm module", "nsl/Compiler.py", comp79)
